@@ -12,26 +12,6 @@ import (
 	"github.com/pion/rtcp"
 )
 
-// Violation is one oracle failure.
-type Violation struct {
-	Oracle   string `json:"oracle"`
-	Clause   string `json:"clause"`
-	World    string `json:"world"` // concurrent | sequential | isolated | pre-vs-post
-	Task     int    `json:"task"`
-	OpIdx    int    `json:"op_idx"`
-	Op       string `json:"op"`
-	Kind     string `json:"kind"`
-	Verdict  bool   `json:"verdict_bearing"`
-	Expected string `json:"expected"`
-	Actual   string `json:"actual"`
-	Detail   string `json:"detail"`
-}
-
-// Key identifies the class of a violation for minimisation and known-findings matching.
-func (v *Violation) Key() string {
-	return v.Oracle + "/" + v.Op + "/" + v.Kind
-}
-
 func errString(e error) string {
 	if e == nil {
 		return "<nil>"
